@@ -457,7 +457,7 @@ fn nontrivial(c: &Case) -> bool {
     }
 }
 
-fn long_string() -> impl Strategy<Value = String> {
+fn long_string() -> impl Strategy<Value = String> + Clone + use<> {
     let word = prop_oneof![
         6 => "[a-z]{1,12}",
         1 => "[a-zA-Z0-9]{30,120}",
@@ -553,6 +553,27 @@ impl Property for C12 {
             }
         }
         out
+    }
+    /// libFuzzer input: position, option bits, value kind, then the value (strings: the rest of
+    /// the input as UTF-8, lossily, at most 96 bytes; numbers: their bit patterns)
+    fn fuzz_decode(data: &[u8]) -> Option<(&'static str, Case, bool)> {
+        let mut b = engine::Bytes::new(data);
+        let pos = b.pick(&POS_ALL);
+        let opts = SerOpts::from_bits(b.u16() as u32);
+        let kind = b.below(12);
+        let (sub, val) = match kind {
+            0..=4 => ("fuzz-str", Val::Str(String::from_utf8_lossy(b.take(96)).into_owned())),
+            5 => ("fuzz-option-str", Val::SomeStr(String::from_utf8_lossy(b.take(24)).into_owned())),
+            6 => ("fuzz-f64", Val::F64(b.u64())),
+            7 => ("fuzz-f32", Val::F32(b.u32())),
+            8 => ("fuzz-i128", Val::I128(((b.u64() as u128) << 64 | b.u64() as u128) as i128)),
+            9 => ("fuzz-u128", Val::U128((b.u64() as u128) << 64 | b.u64() as u128)),
+            10 => ("fuzz-char", Val::Char(char::from_u32(b.u32() % 0x11_0000).unwrap_or('\u{fffd}'))),
+            _ => ("fuzz-bytes", Val::Bytes(b.take(24).to_vec())),
+        };
+        let c = Case { val, pos, opts };
+        let nt = nontrivial(&c);
+        Some((sub, c, nt))
     }
     fn generate(ctx: &mut Ctx<Self>) {
         let fam = SerOpts::family();
@@ -877,4 +898,10 @@ fn decode(mut code: u64) -> String {
 
 fn main() {
     engine::main::<C12>()
+}
+
+/// entry point of the libFuzzer target `fuzz/fuzz_targets/c12.rs`
+#[allow(dead_code)]
+pub fn fuzz(data: &[u8]) {
+    engine::fuzz_one::<C12>(data)
 }
